@@ -1,7 +1,7 @@
 SPECIFICATION Spec
 CONSTANTS
   MaxToks = 3
-  MaxEvents = 12
+  MaxEvents = 13
   WithStartNode = FALSE
   WithError = FALSE
   ExportScripts = FALSE
